@@ -23,6 +23,11 @@ def main():
         if not os.path.isdir(d) or (args and not any(a in sid for a in args)):
             continue
         meta = json.load(open(os.path.join(d, 'meta.json')))
+        if meta.get('outside_statement'):
+            # kept for the record: judged not to break the property as stated (DESIGN 13), no check is expected to report it
+            lines.append('%s OUTSIDE-STATEMENT not counted' % sid)
+            print(lines[-1], flush=True)
+            continue
         shutil.rmtree(SCRATCH, ignore_errors=True)
         shutil.copytree(os.environ.get('VERIF_SRC_REPO', '/repo'), SCRATCH, ignore=shutil.ignore_patterns('.git', '__pycache__', '*.egg-info'))
         try:
